@@ -241,7 +241,7 @@ func parseScope(t *Tree) (map[*ssa.Function]bool, []dynSite) {
 	if f := t.Method(pParser, "Lexer", "NextItem"); f != nil {
 		dyn[f] = states
 	}
-	roots := []*ssa.Function{pp.Func("ParsePipeline")}
+	roots := []*ssa.Function{pkgFunc(pp, "ParsePipeline")}
 	return reach(t, roots, dyn)
 }
 
